@@ -52,6 +52,7 @@ func (s StoreScenario) Key() string {
 
 // Block is a real stored block: how it was made and what it is.
 type Block struct {
+	NonCanonical bool // the stored bytes are not what the encoder would write (trailing white space): no re-encode check
 	Name  string
 	Codec uint64
 	Proto cidlink.LinkPrototype
@@ -71,9 +72,21 @@ type scriptedReader struct {
 	chunk int
 	errAt int // -1: never
 	rng   *rand.Rand
+	// splitAt > 0: a read never crosses this offset (the original block and what storage appended arrive separately)
+	splitAt int
+	// overlap: called once when half of the data has been delivered and once when all of it has (before EOF):
+	// another load running on the same link system while this one is in flight
+	overlap func()
+	fired   int
 }
 
 func (r *scriptedReader) Read(p []byte) (int, error) {
+	if r.overlap != nil {
+		if (r.fired == 0 && r.pos*2 >= len(r.data)) || (r.fired == 1 && r.pos >= len(r.data)) {
+			r.fired++
+			r.overlap()
+		}
+	}
 	if r.errAt >= 0 && r.pos >= r.errAt {
 		return 0, errInjectedRead
 	}
@@ -92,6 +105,9 @@ func (r *scriptedReader) Read(p []byte) (int, error) {
 	}
 	if r.errAt >= 0 && r.pos+n > r.errAt {
 		n = r.errAt - r.pos
+	}
+	if r.splitAt > r.pos && r.pos+n > r.splitAt {
+		n = r.splitAt - r.pos
 	}
 	copy(p, r.data[r.pos:r.pos+n])
 	r.pos += n
@@ -172,6 +188,21 @@ func MakeBlocks(quick bool) ([]Block, error) {
 						return nil, fmt.Errorf("loadraw %s/%s/%s: %w", c.name, h.name, nn, err)
 					}
 					out = append(out, Block{Name: c.name + "/" + h.name + "/" + nn, Codec: c.code, Proto: lp, Node: nodes[nn], Link: lnk, Bytes: raw})
+					// the JSON codecs accept trailing white space: a block stored with it is a different block (its link
+					// covers the white space) that decodes to the same node
+					if (c.code == 0x0129 || c.code == 0x0200) && nn == "plain" {
+						for _, ws := range []string{"\n", " \n\t "} {
+							wb := append(append([]byte{}, raw...), ws...)
+							hasher, err := ls.HasherChooser(lp)
+							if err != nil {
+								return nil, err
+							}
+							hasher.Write(wb)
+							wl := lp.BuildLink(hasher.Sum(nil))
+							out = append(out, Block{Name: c.name + "/" + h.name + "/" + nn + fmt.Sprintf("+ws%d", len(ws)), Codec: c.code, Proto: lp,
+								Node: nodes[nn], Link: wl, Bytes: wb, NonCanonical: true})
+						}
+					}
 				}
 			}
 		}
@@ -290,10 +321,30 @@ func ReplayLoadScenario(s LoadScenario, b Block, others []Block, thorough bool, 
 	target := "LinkSystem." + s.Op
 	n := 0
 	nontrivial := 0
+	type variant struct {
+		cf      concreteFault
+		overlap bool
+	}
+	var variants []variant
 	for _, cf := range faults {
-		cf := cf
+		variants = append(variants, variant{cf, false})
+		if !cf.openErr {
+			variants = append(variants, variant{cf, true})
+		}
+	}
+	for _, vr := range variants {
+		cf := vr.cf
+		overlap := vr.overlap
+		if overlap {
+			cf.desc += ", with a complete load of the intact block running on the same link system meanwhile"
+		}
 		ls := cidlink.DefaultLinkSystem()
+		nested := 0
+		var nestedErr error
 		ls.StorageReadOpener = func(_ linking.LinkContext, l datamodel.Link) (io.Reader, error) {
+			if nested > 0 { // the overlapping load is served the intact block
+				return bytes.NewReader(b.Bytes), nil
+			}
 			if cf.openErr {
 				return nil, errInjectedOpen
 			}
@@ -301,7 +352,20 @@ func ReplayLoadScenario(s LoadScenario, b Block, others []Block, thorough bool, 
 			if chunk >= 100 {
 				chunk = math.MaxInt32
 			}
-			return &scriptedReader{data: cf.delivered, chunk: chunk, errAt: cf.errAt, rng: rng}, nil
+			sr := &scriptedReader{data: cf.delivered, chunk: chunk, errAt: cf.errAt, rng: rng}
+			if len(cf.delivered) > len(b.Bytes) && bytes.HasPrefix(cf.delivered, b.Bytes) {
+				sr.splitAt = len(b.Bytes)
+			}
+			if overlap {
+				sr.overlap = func() {
+					nested++
+					defer func() { nested-- }()
+					if _, err := ls.Load(linking.LinkContext{}, b.Link, basicnode.Prototype.Any); err != nil && nestedErr == nil {
+						nestedErr = err
+					}
+				}
+			}
+			return sr, nil
 		}
 		var node datamodel.Node
 		var raw []byte
@@ -333,12 +397,16 @@ func ReplayLoadScenario(s LoadScenario, b Block, others []Block, thorough bool, 
 		if p != nil {
 			return fail("panic", fmt.Sprint(p)), n, nontrivial
 		}
+		if nestedErr != nil {
+			return &run.Finding{Step: -1, Target: target, Rule: "overlapping-load:ok", Class: "error",
+				Detail: fmt.Sprintf("block %s: the load of the intact block that ran while another load was in flight failed: %v", b.Name, nestedErr)}, n, nontrivial
+		}
 		switch s.R {
 		case "ok":
 			if err != nil {
 				return fail("error", err.Error()), n, nontrivial
 			}
-			if s.Op != "LoadRaw" {
+			if s.Op != "LoadRaw" && !b.NonCanonical {
 				l2, cerr := ls.ComputeLink(b.Proto, node)
 				if cerr != nil || l2.Binary() != b.Link.Binary() {
 					return fail("different-node", fmt.Sprintf("the loaded node does not re-encode to the link it was loaded by (%v, %v)", l2, cerr)), n, nontrivial
@@ -433,6 +501,9 @@ func unencodable(codec uint64) []datamodel.Node {
 
 // ReplayStoreScenario: writer failing at the k-th write / unencodable node / failing open.
 func ReplayStoreScenario(s StoreScenario, b Block) (*run.Finding, int, int) {
+	if b.NonCanonical { // not something Store would ever write
+		return nil, 0, 0
+	}
 	target := "LinkSystem.Store"
 	n, nontrivial := 0, 0
 	// how many writes does a healthy store of this node make?
